@@ -143,6 +143,7 @@ func (x *Exec) execInstr(fr *Frame, b *ssa.BasicBlock, st *State, ins ssa.Instru
 		s := x.val(fr, st, in.X)
 		si := vc.structInfoOf(in.X.Type())
 		fr.regs[in] = vc.field(si, s, in.Field)
+		x.wf(st, fr.regs[in], si.ftypes[in.Field])
 		return false
 
 	case *ssa.Index:
